@@ -387,3 +387,6 @@ CHECKS['C20'].update(text=CHECKS['C20']['text'] + ' B6: a per-argument type flag
                      'parse entry to the line parser.')
 CHECKS['C12'].update(text=CHECKS['C12']['text'] + ' W5: formatted values stored through putstrf/addstrf - the shared formatting macro accepts a '
                      '(v)snprintf result only when strictly below the buffer size.')
+CHECKS['C18'].update(text=CHECKS['C18']['text'] + ' H8: the read loop of qhashmd5_file - MD5Update is given the byte count the read returned, that '
+                     'count is used only where it is known to be >= 0, a read never exceeds the remaining count, the file is positioned at the '
+                     'offset first (a reader in another I/O form gives no instance).')
